@@ -44,6 +44,10 @@ def reset_store():
     Node.store.clear()
 
 
+# provenance of the case being executed inside a worker block: (pmap call, block, position in block)
+CURRENT_PROV = None
+
+
 # --------------------------------------------------------------------------
 # problems (violations) ----------------------------------------------------
 # --------------------------------------------------------------------------
@@ -54,7 +58,10 @@ def problem(kind, case, expected=None, observed=None, **sig):
     every key the finding lists)."""
     s = {"kind": kind}
     s.update(sig)
-    return {"sig": s, "case": case, "expected": expected, "observed": observed}
+    p = {"sig": s, "case": case, "expected": expected, "observed": observed}
+    if CURRENT_PROV is not None:
+        p["prov"] = CURRENT_PROV
+    return p
 
 
 def sig_key(sig):
@@ -114,34 +121,78 @@ def write_replay(prop, prob):
 # process pool -------------------------------------------------------------
 # --------------------------------------------------------------------------
 
-def _worker_wrap(args):
-    func, item = args
-    try:
-        reset_store()
-        return ("ok", func(item))
-    except BaseException:  # noqa
-        return ("err", traceback.format_exc())
+_PMAP_CALLS = []       # parent-side registry: (func, items, nblocks) per pmap call, inherited by forked workers
 
 
-def pmap(func, items, jobs=None, chunksize=1):
-    """Run func over items on a fork pool; func must be a module-level function.
-    Results are returned in order.  A crash inside the harness itself (not a
-    property violation) aborts the run with exit code 2."""
+def _run_block(args):
+    """Run one block (a strided slice of the items) sequentially in this freshly forked process.
+    Cases inside a block share the interpreter state the library may keep between calls (module-level caches,
+    mutated tables), deterministically: the same block always sees the same sequence of cases."""
+    global CURRENT_PROV
+    call_id, b, upto = args
+    func, items, nblocks = _PMAP_CALLS[call_id]
+    idxs = list(range(b, len(items), nblocks))
+    if upto is not None:
+        idxs = idxs[:upto + 1]
+    out = []
+    for pos, i in enumerate(idxs):
+        CURRENT_PROV = (call_id, b, pos)
+        try:
+            reset_store()
+            out.append((i, "ok", func(items[i])))
+        except BaseException:  # noqa
+            out.append((i, "err", traceback.format_exc()))
+            break
+    CURRENT_PROV = None
+    return out
+
+
+def pmap(func, items, jobs=None, chunksize=None):
+    """Run func over items in deterministic strided blocks, each block in its own freshly forked process.
+    func must be a module-level function.  Results are returned in item order.  A crash inside the harness
+    itself (not a property violation) aborts the run with exit code 2."""
     items = list(items)
     jobs = jobs or NCPU
-    if jobs <= 1 or len(items) <= 1:
-        out = [_worker_wrap((func, it)) for it in items]
-    else:
-        ctx = mp.get_context("fork")
-        with ctx.Pool(min(jobs, len(items))) as pool:
-            out = pool.map(_worker_wrap, [(func, it) for it in items], chunksize)
-    res = []
-    for st, v in out:
-        if st == "err":
-            sys.stderr.write("HARNESS-ERROR: worker crashed:\n" + v + "\n")
-            sys.exit(2)
-        res.append(v)
+    if not items:
+        return []
+    nblocks = max(1, min(len(items), jobs * 4))
+    call_id = len(_PMAP_CALLS)
+    _PMAP_CALLS.append((func, items, nblocks))
+    tasks = [(call_id, b, None) for b in range(nblocks)]
+    ctx = mp.get_context("fork")
+    with ctx.Pool(min(jobs, nblocks), maxtasksperchild=1) as pool:
+        outs = pool.map(_run_block, tasks, 1)
+    res = [None] * len(items)
+    for blk in outs:
+        for i, st, v in blk:
+            if st == "err":
+                sys.stderr.write("HARNESS-ERROR: worker crashed:\n" + v + "\n")
+                sys.exit(2)
+            res[i] = v
     return res
+
+
+def _isolated(args):
+    func, arg = args
+    reset_store()
+    return func(arg)
+
+
+def run_isolated(func, arg):
+    """Run func(arg) in a freshly forked child, so that nothing the library keeps between calls leaks into or
+    out of the parent process (the parent never executes library code after the exploration started)."""
+    ctx = mp.get_context("fork")
+    with ctx.Pool(1, maxtasksperchild=1) as pool:
+        return pool.map(_isolated, [(func, arg)], 1)[0]
+
+
+def rerun_block(prov):
+    """Re-execute, in a fresh process, the block that produced a problem, up to and including its case."""
+    call_id, b, pos = prov
+    ctx = mp.get_context("fork")
+    with ctx.Pool(1, maxtasksperchild=1) as pool:
+        out = pool.map(_run_block, [(call_id, b, pos)], 1)[0]
+    return [v for _, st, v in out if st == "ok"]
 
 
 # --------------------------------------------------------------------------
